@@ -862,7 +862,7 @@ Example T02k_undefine_example :
 Proof. reflexivity. Qed.
 
 
-(* T02k.5  object_oriented.remove_unused_self_cls (after repairs 8b785d2, ba39c5e, 9171c40, bfe9205): the
+(* T02k.5  object_oriented.remove_unused_self_cls (after repairs 45b0c63, 6ce9a8c, 41a477a, 880ec73): the
    model of the rule -- five passes of rs_pass, as processing.fix runs it -- leaves the run of the module
    unchanged for every fuel: same trace (events, uses of the first parameter with the object it is bound
    to), same outcome (exception class).  wf_mod: no class-body alias has the name of a method; no_dyn: no
@@ -879,7 +879,7 @@ Theorem T02k_self_cls_dynamic_refuted :
 Proof. exact self_cls_dynamic_refuted. Qed.
 Print Assumptions T02k_self_cls_dynamic_refuted.
 
-(* the code before repair ba39c5e (no "looked up on a class" guard): C.m(x) with an explicit instance *)
+(* the code before repair 6ce9a8c (no "looked up on a class" guard): C.m(x) with an explicit instance *)
 Theorem T02k_self_cls_unguarded_refuted :
   exists M, wf_mod M = true /\ no_dyn M = true /\ run_module 9 (rs_pass_unguarded M) <> run_module 9 M
             /\ snd (run_module 9 M) = OOk.
@@ -893,7 +893,7 @@ Example T02k_self_cls_example :
   wf_mod M = true /\ no_dyn M = true /\ rs_model M <> M /\ run_module 20 M = ([TUse (SInst 2); TEv 1], OOk).
 Proof. repeat split; try reflexivity. vm_compute. discriminate. Qed.
 
-(* T02k.6  object_oriented.fix_unconventional_class_definitions (after repair 919078b): for a class that
+(* T02k.6  object_oriented.fix_unconventional_class_definitions (after repair cc76320): for a class that
    nothing observes while it is created, the output runs like the input: same outcome, log and class
    attributes.  Hook (decorator / __init_subclass__ / metaclass): refuted, finding F02cls-2. *)
 Theorem T02k_unconventional_sound :
@@ -916,7 +916,7 @@ Proof. exact unconventional_unguarded_refuted. Qed.
 Print Assumptions T02k_unconventional_unguarded_refuted.
 
 
-(* T02k.7  fixes.remove_duplicate_functions / abstractions.hash_node (after repairs 3c7e4a0, 2fc54c7, cd4b981):
+(* T02k.7  fixes.remove_duplicate_functions / abstractions.hash_node (after repairs 45d5772, 3b14d91, a2a12bd):
    two functions with the same numbering have the same node types and plain fields at every position of
    the walk, the same preserved (free) names at the same positions, and their remaining names follow the
    same pattern (two occurrences in f are one name iff the occurrences at the same positions in g are):
@@ -936,7 +936,7 @@ Theorem T02k_duplicate_alpha :
 Proof. exact duplicate_alpha. Qed.
 Print Assumptions T02k_duplicate_alpha.
 
-(* the code before repair 3c7e4a0 numbered the free names as well: `len(x)` and `sum(x)` were "equal" *)
+(* the code before repair 45d5772 numbered the free names as well: `len(x)` and `sum(x)` were "equal" *)
 Theorem T02k_duplicate_old_refuted :
   exists f g, dup_eqb_old [] f g = true /\ dup_eqb [] f g = false /\
               exists i x y, nth_error f i = Some (TN x false) /\ nth_error g i = Some (TN y false) /\ x <> y
@@ -972,7 +972,7 @@ Example T02k_delete_unused_example :
 Proof. repeat split; reflexivity. Qed.
 
 
-(* T02k.9  object_oriented.move_staticmethod_static_scope (after repairs cb0c976 .. 87eaee7), resolution level:
+(* T02k.9  object_oriented.move_staticmethod_static_scope (after repairs 82c842a .. 4757c14), resolution level:
    a static method x of class k that the rule moves under the new name n IS, in the output, the module-level
    function n: same parameters, the (redirected) body of x, bound by nothing else (no other function, no stored
    name) -- so a redirected access `C.m(args)` -> `n(args)` reaches the body that `C.m` reached (T02k.10), with
